@@ -220,6 +220,20 @@ BIG_PP = {(2 ** 61 - 1): {2 ** 61 - 1: 1}, (2 ** 61 - 1) ** 3: {2 ** 61 - 1: 3},
           (2 ** 31 - 1) * (2 ** 61 - 1): {2 ** 31 - 1: 1, 2 ** 61 - 1: 1}, (2 ** 61 - 1) ** 2 * 1031: {2 ** 61 - 1: 2, 1031: 1}}
 
 
+# the exponent loops of factor_prime_power work on the factorisation of d (a power-of-two loop, then every odd prime, repeatedly): for primes beyond the
+# trial-division range every exponent d <= 64 (quick: three primes) is enumerated, so repeated odd factors of d (9, 25, 27, 45, 49, 2*9, 4*27, ...) occur;
+# perfect powers of non-primes and prime powers times another large prime must raise
+FPP_BIG_PRIMES = (1031, 65537, 2 ** 31 - 1, 2 ** 61 - 1)
+FPP_DMAX = 64
+for _p in FPP_BIG_PRIMES:
+    for _d in range(1, FPP_DMAX + 1):
+        BIG_PP[_p ** _d] = {_p: _d}
+for _d in range(1, 31):
+    BIG_PP[(1031 * 1033) ** _d] = {1031: _d, 1033: _d}
+    BIG_PP[65537 ** _d * 1031] = {65537: _d, 1031: 1}
+    BIG_PP[(2 ** 31 - 1) ** _d * (2 ** 61 - 1) ** _d] = {2 ** 31 - 1: _d, 2 ** 61 - 1: _d}
+
+
 def ck_fpp(args, res, exc):
     x = args[0]
     f = BIG_PP[x] if x in BIG_PP else o_factor(x) if x > 1 else {}
@@ -307,7 +321,7 @@ NATIVE = {n.name: n for n in [
                                      ((y ** n + d, n) for y in range(1, T(t, 40, 200)) for n in range(1, 8) for d in (-1, 0, 1) if y ** n + d >= 0)),
            '0 <= x < 3000 (thorough 1e5), 1 <= n <= 12; y^n, y^n±1 for y < 40 (200), n <= 7'),
     Native('factor_prime_power', 'mpyc.gmpy.factor_prime_power', lambda x: _G().factor_prime_power(x), ck_fpp, in_fpp,
-           'all x < 5000 (thorough 1e5) + p^d for p in {2,3,5,1021,1031,1033,65537}, d <= 6 + products of primes > 1024 + six large cases with known factorisation'),
+           'all x < 5000 (thorough 1e5) + p^d for p in {2,3,5,1021,1031,1033,65537}, d <= 6 + products of primes > 1024 + p^d for p in {1031, 65537, 2^31-1, 2^61-1} and EVERY d <= 64 + (pq)^d, p^d q, p^d q^d for d <= 30 (known factorisations)'),
 ]}
 for _n in NATIVE.values(): _n.module = 'contracts.gmpy'
 
